@@ -361,7 +361,7 @@ func (l c17) Exec(env *core.Env) *core.Result {
 	maxSteps := 4000
 	total := w["outSize"] + w["errSize"]
 	if total > 1<<20 {
-		maxSteps = int(total/int64(chunk))*2 + 4000
+		maxSteps = int(total/int64(chunk))*5 + 8000 // (a changed tree may add scheduling points per chunk: locks, goroutines)
 	}
 	sim := core.NewSim(env, nil, maxSteps)
 	defer func() { rt.Cur = nil }()
